@@ -70,6 +70,24 @@ def run(ctx):
                 parts[-1] = rng.choice(["", ".", "!", "\n"])
             return "".join(parts)[:300]
 
+        INVISIBLE = ["\u200e", "\u200f", "\u202a", "\u202b", "\u202c", "\u202d", "\u202e", "\u2066", "\u2067", "\u2068", "\u2069", "\u200b", "\u200c", "\u200d",
+                     "\u00ad", "\ufeff", "\u00a0", "\u2009", "\u202f", "\u2060", "\u034f", "\u061c"]
+
+        def sprinkle(t):
+            """invisible characters (directional marks, joiners, odd spaces) INSIDE the text, next to the spaces of date pieces"""
+            out = []
+            for ch in t:
+                if ch == " " and rng.random() < 0.3:
+                    out.append(rng.choice([rng.choice(INVISIBLE) + " ", " " + rng.choice(INVISIBLE), rng.choice(INVISIBLE)]))
+                else:
+                    out.append(ch)
+            return "".join(out)[:300]
+        _plain_text_for = text_for
+
+        def text_for(L):      # noqa: F811
+            t = _plain_text_for(L)
+            return sprinkle(t) if rng.random() < 0.2 else t
+
         per_lang = 30 if ctx.quick() else 400
         for L in order:
             ps = pieces(L)
